@@ -78,6 +78,17 @@ Theorem c10_records_safe_top : forall (decompress : Z -> list Z -> option (list 
 Proof. exact records_top_safe. Qed.
 Theorem c10_response_header_safe : forall version d, inb d -> safe d (response_header_decode version d).
 Proof. exact response_header_safe. Qed.
+(* Broker.responseReceiver: after an accepted frame header (either header version) the size handed to
+   make([]byte, length - headerLength + 4) is never negative and at most MaxResponseSize: no makeslice panic. *)
+Theorem c10_response_receive_safe : forall version corr d, inb d ->
+  match response_receive version corr d with
+  | Ok size _ => 0 <= size <= MAX_RESPONSE_SIZE
+  | Err _ _ => True
+  | Panic _ => False
+  | Alloc _ => False
+  end.
+Proof. exact response_receive_safe. Qed.
+Print Assumptions c10_response_receive_safe.
 Theorem c10_request_header_safe : forall hv_of d, inb d -> safe d (request_header_decode hv_of d).
 Proof. exact request_header_safe. Qed.
 Theorem c10_control_record_safe : forall key value, inb key -> inb value -> no_crash (fst (control_decode key value)).
